@@ -133,6 +133,9 @@ func corruptCase(t *testing.T, p *world.PKI, cache *blobCache, b blobSpec, pos i
 			out.Counters["worlds_run"]++
 		}
 		out.Counters["corrupt "+class]++
+		if class == classSuiteSameProtection {
+			out.Counters["info_suite_id_changed_same_record_protection"]++
+		}
 		if !classes[class] {
 			classes[class] = true
 			out.Distinct++
@@ -187,6 +190,9 @@ func fieldCase(t *testing.T, p *world.PKI, cache *blobCache, b blobSpec, k int, 
 	}
 	out.Class = "field " + class
 	out.Counters["field "+firstWord(m.Field[:strings.IndexByte(m.Field, '=')])+" -> "+class]++
+	if class == classSuiteSameProtection {
+		out.Counters["info_suite_id_changed_same_record_protection"]++
+	}
 	if viol != "" {
 		out.Violation = fmt.Sprintf("blob=%s mutation=%s: %s", b.name(), m, viol)
 		out.Key = key
